@@ -68,6 +68,10 @@ impl<S> MonCtx<S> {
 }
 
 static CTX: Mutex<Option<Arc<dyn Any + Send + Sync>>> = Mutex::new(None);
+thread_local! {
+    /// true while this thread runs a *restricted* compilation (MonDD::compile)
+    pub static IN_RESTRICTED: std::cell::Cell<bool> = const { std::cell::Cell::new(false) };
+}
 pub fn set_ctx<S: Send + Sync + 'static>(ctx: Option<Arc<MonCtx<S>>>) {
     *CTX.lock().unwrap() = ctx.map(|c| c as Arc<dyn Any + Send + Sync>);
 }
@@ -214,7 +218,12 @@ where
                 comp_type: input.comp_type, problem: &rp, relaxation: &rr, ranking: input.ranking, cutoff: input.cutoff,
                 max_width: input.max_width, residual: input.residual, best_lb: input.best_lb, cache: input.cache, dominance: input.dominance,
             };
-            self.inner.compile(&inp)
+            // which kind of compilation this thread is in: read by the dominance wrapper (queries issued by restricted
+            // compilations are counted: a fact of the C10 verdicts)
+            let prev = IN_RESTRICTED.with(|c| c.replace(input.comp_type == CompilationType::Restricted));
+            let r = self.inner.compile(&inp);
+            IN_RESTRICTED.with(|c| c.set(prev));
+            r
         };
         let log = log.into_inner();
         if std::env::var("VH_TRACE").is_ok() {
